@@ -1292,16 +1292,18 @@ impl ContinuityStreamCache {
                 }
             }
 
-            if found_messages >= message_limit
-                || scan.complete
-                || backscan_bytes >= MAX_BACKSCAN_BYTES
-            {
+            if found_messages >= message_limit || scan.complete {
                 selected_rev.reverse();
                 return Ok(Some(ContinuityWindow {
                     events: selected_rev,
                     from_seq,
                     from_message_id: Some(anchor_message_id.to_string()),
                 }));
+            }
+            if backscan_bytes >= MAX_BACKSCAN_BYTES {
+                // The bounded scan does not reach `message_limit` messages: a window cut short
+                // here would drop messages the compiler must see. Let the caller fall back.
+                return Ok(None);
             }
 
             backscan_bytes = (backscan_bytes * 2).min(MAX_BACKSCAN_BYTES);
